@@ -2,6 +2,7 @@
 //! canonical output line per case (stdout). See /verif/PROTOCOL.md for the line formats.
 mod client;
 mod life;
+mod net;
 mod mockio;
 mod points;
 mod util;
@@ -309,6 +310,7 @@ async fn run_case(line: &str) -> String {
         "rdr" => run_rdr(&tok).await,
         "cl" => client::run_cl(&tok).await,
         "life" => life::run_life(&tok).await,
+        "net" => net::run_net(&tok).await,
         other => format!("unknown-suite {other}"),
     }
 }
